@@ -333,6 +333,18 @@ func gen(tier string, rng *h.Rng, emit0 func(string)) {
 		emit("listen " + strings.Join(evs, ";"))
 	}
 
+	// a live gossip session: members with names of every length class join this node
+	for _, l := range []string{"24", "3", "19,20,21", "1,25,40,2"} {
+		emit("serf " + l)
+	}
+	for i := 0; i < scale(2, 30); i++ {
+		var ls []string
+		for j := 1 + rng.Intn(4); j > 0; j-- {
+			ls = append(ls, pick(rng, "1", "2", "5", "19", "20", "21", "24", "30", "64"))
+		}
+		emit("serf " + strings.Join(ls, ","))
+	}
+
 	// ---- arbitrary bytes (oracle only) ---------------------------------------
 	genFuzz(rng, emit, thorough)
 }
@@ -565,6 +577,13 @@ func genFuzz(rng *h.Rng, emit func(string), thorough bool) {
 		emit(fmt.Sprintf("fzshares %d %d %s %s %s", t, n, seed, h.Hex(content), strings.Join(ss, ";")))
 	}
 	genParse(rng, emit, k(250, 6000))
+	// oversized documents
+	emit("fzfetch 1")
+	emit("fzfetch 48")
+	if thorough {
+		emit("fzfetch 8")
+		emit("fzfetch 200")
+	}
 }
 
 var _ = ptypes.MarshalAny
